@@ -17,6 +17,18 @@ def gen_decls(rng, tree_nss):
         return None
     if r < 0.3:
         return []
+    if r < 0.45:
+        # the caller makes a namespace of the tree the default one and gives the root's namespace (if it is another
+        # one) a prefix: the default may have to be re-declared when names in no namespace occur
+        root_ns = tree_nss[0] if tree_nss else ""
+        others = [n for n in tree_nss if n and n != root_ns and n != trees.XML_NS]
+        if others:
+            d = [[rng.choice(["", None]), rng.choice(others)]]
+            if root_ns:
+                d.append([rng.choice(["r", "p", "ns0", "xmlr"]), root_ns])
+            if rng.random() < 0.5:
+                d.reverse()
+            return d
     d = {}
     used = set()
     for _ in range(rng.choice([1, 1, 2, 3])):
